@@ -12,6 +12,7 @@ import (
 	"sort"
 	"strings"
 	"sync"
+	"sync/atomic"
 	"time"
 
 	"github.com/Tom-Johnston/mamba/comb"
@@ -129,6 +130,23 @@ func canonical(c *engine.Ctx, G int) workload {
 				return fp(p)
 			}}, op{"CanonicalIsomorphFull(sparse " + f.Name + ")", func() string {
 				p, o, gs := graph.CanonicalIsomorphFull(h.Sparse(), nil)
+				return fp(p, []int(o), gs)
+			}}, op{"CanonicalIsomorphFull(dense " + f.Name + ", two vertex classes)", func() string {
+				// vertex classes: the closed neighbourhood of vertex 0 and the rest (the arguments of one call must
+				// not be replaced by another call's, or dropped, when calls overlap)
+				var in, out []int
+				for v := 0; v < h.N; v++ {
+					if v == 0 || h.Has(0, v) {
+						in = append(in, v)
+					} else {
+						out = append(out, v)
+					}
+				}
+				classes := [][]int{in}
+				if len(out) > 0 {
+					classes = append(classes, out)
+				}
+				p, o, gs := graph.CanonicalIsomorphFull(h.Dense(), classes)
 				return fp(p, []int(o), gs)
 			}})
 		}
@@ -700,6 +718,34 @@ func combTables(G int) workload {
 			}
 			sb.WriteString(fp(comb.Coeffs(20)[20]))
 			return fmt.Sprintf("%x", hash(sb.String()))
+		}}, {"calls that refuse (documented panics, recovered by the caller) between ordinary calls", func() string {
+			// a refused call must leave nothing behind that affects later calls of this or any other goroutine
+			var sb strings.Builder
+			refused := func(f func()) (msg string) {
+				defer func() {
+					if x := recover(); x != nil {
+						msg = "refused"
+					}
+				}()
+				f()
+				return "returned"
+			}
+			r := engine.NewRng(uint64(g)*53 + 9)
+			for i := 0; i < 60; i++ {
+				switch (i + g) % 4 {
+				case 0:
+					sb.WriteString(refused(func() { comb.Coeff(100+r.Intn(50), 48+r.Intn(5)) }))
+				case 1:
+					sb.WriteString(refused(func() { comb.CoeffUint64(uint64(200+r.Intn(100)), uint64(90+r.Intn(20))) }))
+				case 2:
+					sb.WriteString(refused(func() { comb.Rank([]int{1 << 40, 1<<41 + r.Intn(9), 1 << 42, 1<<43 + 5}) }))
+				default:
+					sb.WriteString(refused(func() { graph.GreedyColor(graph.Path(4), []int{0, 1}) }))
+				}
+				n, k := 33+r.Intn(30), 2+r.Intn(8)
+				sb.WriteString(fp(comb.Coeff(n, k), comb.CoeffUint64(uint64(n), uint64(k)), comb.Rank([]int{k, n, n + 3})))
+			}
+			return sb.String()
 		}}})
 	}
 	return w
@@ -741,8 +787,36 @@ type result struct {
 }
 
 // runConcurrent executes the per-goroutine op lists concurrently; returns results and intervals.
-func runConcurrent(w workload, seed uint64, rounds int) ([][][]result, []interval) {
+// blockedWorkers reads a dump of all goroutines: it returns the dump entries of the worker goroutines (those with
+// runConcurrent.func on their stack) if EVERY one of them is parked in a blocking state (waiting for a lock, a
+// semaphore, a channel ...), and "" if any of them is running or runnable (a worker that is merely starved of CPU is
+// runnable, never parked).
+func blockedWorkers() string {
+	buf := make([]byte, 1<<22)
+	buf = buf[:runtime.Stack(buf, true)]
+	var parked []string
+	for _, gr := range strings.Split(string(buf), "\n\n") {
+		if !strings.Contains(gr, "c19.runConcurrent.func") || strings.Contains(gr, "c19.blockedWorkers") {
+			continue
+		}
+		head := gr
+		if i := strings.IndexByte(gr, '\n'); i >= 0 {
+			head = gr[:i]
+		}
+		if strings.Contains(gr, "sync.(*WaitGroup).Wait") {
+			continue // the helper that waits for the workers
+		}
+		if strings.Contains(head, "[running") || strings.Contains(head, "[runnable") || strings.Contains(head, "[syscall") {
+			return ""
+		}
+		parked = append(parked, gr)
+	}
+	return strings.Join(parked, "\n\n")
+}
+
+func runConcurrent(w workload, seed uint64, rounds int) ([][][]result, []interval, string) {
 	G := len(w.ops)
+	var opsDone int64
 	res := make([][][]result, G)
 	ivs := make([][]interval, G)
 	t0 := time.Now()
@@ -772,18 +846,44 @@ func runConcurrent(w workload, seed uint64, rounds int) ([][][]result, []interva
 						rr[i].got = o.f()
 					}()
 					ivs[g] = append(ivs[g], interval{g, s, time.Since(t0).Nanoseconds()})
+					atomic.AddInt64(&opsDone, 1)
 				}
 				res[g][round] = rr
 			}
 		}(g)
 	}
 	close(start)
-	wg.Wait()
-	var all []interval
-	for g := range ivs {
-		all = append(all, ivs[g]...)
+	finished := make(chan struct{})
+	go func() { wg.Wait(); close(finished) }()
+	// A deadlock burns no CPU, so the CPU watchdog of the engine never sees it.  It is decided on the goroutines'
+	// states, not on time: no operation completed between two looks 10 s apart AND at both looks every unfinished
+	// worker is parked in a blocking state (a worker that is only slow or starved is running / runnable).
+	var lastCount int64 = -1
+	strikes := 0
+	for {
+		select {
+		case <-finished:
+			var all []interval
+			for g := range ivs {
+				all = append(all, ivs[g]...)
+			}
+			return res, all, ""
+		case <-time.After(10 * time.Second):
+		}
+		n := atomic.LoadInt64(&opsDone)
+		dump := ""
+		if n == lastCount {
+			dump = blockedWorkers()
+		}
+		if dump == "" {
+			lastCount, strikes = n, 0
+			continue
+		}
+		strikes++
+		if strikes >= 2 {
+			return res, nil, dump
+		}
 	}
-	return res, all
 }
 
 // overlappingPairs counts pairs of intervals on different goroutines that intersect.
@@ -835,8 +935,14 @@ func runWorkload(c *engine.Ctx, w, ref workload, rounds int) {
 		var res [][][]result
 		var ivs []interval
 		key := fmt.Sprintf("c19|%s|concurrent|GOMAXPROCS=%d", w.name, procs)
-		pi := c.Call(key, func() { res, ivs = runConcurrent(w, c.Seed()*7+uint64(procs), rounds) })
+		blocked := ""
+		pi := c.Call(key, func() { res, ivs, blocked = runConcurrent(w, c.Seed()*7+uint64(procs), rounds) })
 		runtime.GOMAXPROCS(old)
+		if blocked != "" {
+			c.Violation("concurrent|"+w.name+"|goroutines-blocked-for-good|"+librarySite(blocked), map[string]interface{}{"workload": w.name, "GOMAXPROCS": procs},
+				"no operation completed any more and every unfinished goroutine is parked in a blocking state:\n"+blocked, "every goroutine obtains the result it would obtain running alone (and therefore returns)")
+			return
+		}
 		if pi != nil {
 			c.Violation("concurrent|"+w.name+"|panic-in-harness-goroutine", map[string]interface{}{"workload": w.name}, pi.String(), "no panic")
 			return
